@@ -75,6 +75,19 @@ pub fn mutate(c: &mut Choices, doc: &mut Document, s: &RefSchema) -> Option<&'st
     None
 }
 
+/// Apply one validity-preserving (`n-*`) mutation chosen by `c`.
+pub fn mutate_neutral(c: &mut Choices, doc: &mut Document, s: &RefSchema) -> Option<&'static str> {
+    let neutral: Vec<(&'static str, Rule)> = MUTATORS.iter().filter(|(n, _)| n.starts_with("n-")).cloned().collect();
+    let start = c.choose(neutral.len());
+    for k in 0..neutral.len() {
+        let (name, rule) = neutral[(start + k) % neutral.len()];
+        if mutate_with(c, doc, s, rule) {
+            return Some(name);
+        }
+    }
+    None
+}
+
 pub fn mutate_with(c: &mut Choices, doc: &mut Document, s: &RefSchema, rule: Rule) -> bool {
     let st = sites(doc, s);
     let mut m = M { c, doc, s, sites: st };
